@@ -69,16 +69,15 @@ the same environment stripped of them produce the same directory. -/
 theorem implicit_entries_never_written (le : LayerEnv) (layer : Dir) :
     writeToLayerDir le layer = writeToLayerDir { le with pathsBuild := [], pathsLaunch := [] } layer := rfl
 
-/-- **M4b (read → write → read).** Take any directory a writer produced (from an environment `le`, into any
-layer directory incl. one with bin/lib/include/pkgconfig in any state), read it, write what was read back,
-and read again: both writes succeed, `env` and `env.build` are entry-for-entry unchanged, and the second read
-applies identically to the first for every scope and starting environment. -/
-theorem read_write_cycle (le : LayerEnv) (hok : le.Ok) (lp : Bytes) (t0 : Dir) (h0 : LayerOk t0) :
+/-- **M4b′ (the cycle re-establishes its own hypotheses).** As M4b, and in addition what was read back is again an
+environment the writer handles (`le1.Ok`) and the written directory is again a layer directory the writer accepts
+(`LayerOk t1`) — which is what lets the cycle be repeated (`read_write_cycles`). -/
+theorem read_write_cycle_invariant (le : LayerEnv) (hok : le.Ok) (lp : Bytes) (t0 : Dir) (h0 : LayerOk t0) :
     ∃ t1 le1 t2 le2, writeToLayerDir le t0 = some t1 ∧ readFromLayerDir lp t1 = some le1 ∧
       writeToLayerDir le1 t1 = some t2 ∧ readFromLayerDir lp t2 = some le2 ∧
       t2.get nEnv = t1.get nEnv ∧ t2.get nEnvBuild = t1.get nEnvBuild ∧
       (∀ other, other ≠ nEnvLaunch → t2.get other = t1.get other) ∧
-      ∀ s env, le2.apply s env = le1.apply s env := by
+      (∀ s env, le2.apply s env = le1.apply s env) ∧ le1.Ok ∧ LayerOk t1 := by
   obtain ⟨t1, w1, g1, g2, g3, f1⟩ := writeToLayerDir_spec le t0 h0 hok.proc
   obtain ⟨le1, r1, ea, eb, el, ep, eproc, epb, epl⟩ := read_written le hok lp t1 g1 g2 g3
   -- what was read is again an environment the writer handles
@@ -107,7 +106,7 @@ theorem read_write_cycle (le : LayerEnv) (hok : le.Ok) (lp : Bytes) (t0 : Dir) (
   obtain ⟨le2, r2, ea2, eb2, el2, ep2, _, epb2, epl2⟩ := read_written le1 hok1 lp t2 k1 k2 k3
   have hsub : ∀ sub : LSub, t2.get sub.dirName = t1.get sub.dirName :=
     fun sub => f2 _ (sub_ne_env sub).1 (sub_ne_env sub).2.1 (sub_ne_env sub).2.2
-  refine ⟨t1, le1, t2, le2, w1, r1, w2, r2, by rw [k1, g1, ea], by rw [k2, g2, eb], ?_, ?_⟩
+  refine ⟨t1, le1, t2, le2, w1, r1, w2, r2, by rw [k1, g1, ea], by rw [k2, g2, eb], ?_, ?_, hok1, ht1⟩
   · intro other ho
     by_cases h1 : other = nEnv
     · subst h1; rw [k1, g1, ea]
@@ -119,6 +118,55 @@ theorem read_write_cycle (le : LayerEnv) (hok : le.Ok) (lp : Bytes) (t0 : Dir) (
     · rw [epb2, epb, readLayerPaths_congr lp t1 t2 _ _ hsub]
     · rw [epl2, epl, readLayerPaths_congr lp t1 t2 _ _ hsub]
 
+/-- **M4b (read → write → read).** Take any directory a writer produced (from an environment `le`, into any
+layer directory incl. one with bin/lib/include/pkgconfig in any state), read it, write what was read back,
+and read again: both writes succeed, `env` and `env.build` are entry-for-entry unchanged, and the second read
+applies identically to the first for every scope and starting environment. -/
+theorem read_write_cycle (le : LayerEnv) (hok : le.Ok) (lp : Bytes) (t0 : Dir) (h0 : LayerOk t0) :
+    ∃ t1 le1 t2 le2, writeToLayerDir le t0 = some t1 ∧ readFromLayerDir lp t1 = some le1 ∧
+      writeToLayerDir le1 t1 = some t2 ∧ readFromLayerDir lp t2 = some le2 ∧
+      t2.get nEnv = t1.get nEnv ∧ t2.get nEnvBuild = t1.get nEnvBuild ∧
+      (∀ other, other ≠ nEnvLaunch → t2.get other = t1.get other) ∧
+      ∀ s env, le2.apply s env = le1.apply s env := by
+  obtain ⟨t1, le1, t2, le2, a, b, c, d, e, f, g, h, _, _⟩ := read_write_cycle_invariant le hok lp t0 h0
+  exact ⟨t1, le1, t2, le2, a, b, c, d, e, f, g, h⟩
+
+/-- `n` rounds of "read the layer's environment, write what was read back into the same layer directory". -/
+def cycles (lp : Bytes) : Nat → Dir → Option Dir
+  | 0, t => some t
+  | n + 1, t =>
+    match readFromLayerDir lp t with
+    | none => none
+    | some le =>
+      match writeToLayerDir le t with
+      | none => none
+      | some t' => cycles lp n t'
+
+/-- **M4c (any number of times).** Take any directory a writer produced and read and re-write it `n` times, for any `n`:
+every read and write succeeds, `env`, `env.build` and everything else outside `env.launch` are entry-for-entry what the first
+write left, and the environment read at the end applies identically to the one read at the start, for every scope and
+starting environment. (Induction on `n` over M4b′.) -/
+theorem read_write_cycles (n : Nat) (le : LayerEnv) (hok : le.Ok) (lp : Bytes) (t0 : Dir) (h0 : LayerOk t0) :
+    ∃ t1 tn le1 len, writeToLayerDir le t0 = some t1 ∧ cycles lp n t1 = some tn ∧
+      readFromLayerDir lp t1 = some le1 ∧ readFromLayerDir lp tn = some len ∧
+      tn.get nEnv = t1.get nEnv ∧ tn.get nEnvBuild = t1.get nEnvBuild ∧
+      (∀ other, other ≠ nEnvLaunch → tn.get other = t1.get other) ∧
+      ∀ s env, len.apply s env = le1.apply s env := by
+  induction n generalizing le t0 with
+  | zero =>
+    obtain ⟨t1, le1, _, _, w1, r1, _⟩ := read_write_cycle_invariant le hok lp t0 h0
+    exact ⟨t1, t1, le1, le1, w1, rfl, r1, r1, rfl, rfl, fun _ _ => rfl, fun _ _ => rfl⟩
+  | succ n ih =>
+    obtain ⟨t1, le1, t2, le2, w1, r1, w2, r2, e1, e2, e3, e4, hok1, ht1⟩ := read_write_cycle_invariant le hok lp t0 h0
+    obtain ⟨t2', tn, le2', len, w2', c, r2', rn, f1, f2, f3, f4⟩ := ih le1 hok1 t1 ht1
+    have ht : t2' = t2 := Option.some.inj (w2'.symm.trans w2)
+    subst ht
+    have hl : le2' = le2 := Option.some.inj (r2'.symm.trans r2)
+    subst hl
+    refine ⟨t1, tn, le1, len, w1, ?_, r1, rn, f1.trans e1, f2.trans e2, fun o ho => (f3 o ho).trans (e3 o ho), ?_⟩
+    · simp only [cycles, r1, w2, c]
+    · intro s env; rw [f4, e4]
+
 /-- Non-vacuity of M4b: a concrete environment with a process scope satisfies `Ok`, into a layer with `bin`. -/
 example : ∃ ins : List Ins, (buildEnv ins).Ok ∧ LayerOk [([98, 105, 110], .dir [])] :=
   ⟨[⟨.all, .append, [80], [1]⟩, ⟨.process [119], .override, [81], [2]⟩],
@@ -127,5 +175,12 @@ example : ∃ ins : List Ins, (buildEnv ins).Ok ∧ LayerOk [([98, 105, 110], .d
 /-- Non-vacuity of M2: a layer whose `bin` is a symlink to a directory and whose `lib` is a file. -/
 example : Spec.implicitRule [76] (fun s => Node.isDirFollow (Dir.get [([98, 105, 110], .link .toDir), ([108, 105, 98], .file [])] s.dirName))
     [80, 65, 84, 72] .build (some [47, 120]) = some [76, 47, 98, 105, 110, 58, 47, 120] := by decide
+
+/-- Non-vacuity of M4c: three rounds on a concrete written layer succeed. -/
+example : ∃ t1, writeToLayerDir (buildEnv [⟨.all, .append, [80], [1]⟩, ⟨.process [119], .override, [81], [2]⟩]) [([98, 105, 110], .dir [])] = some t1
+    ∧ (cycles [76] 3 t1).isSome = true := by
+  obtain ⟨t1, tn, _, _, w, c, _⟩ := read_write_cycles 3 _ (buildEnv_ok [⟨.all, .append, [80], [1]⟩, ⟨.process [119], .override, [81], [2]⟩] (by decide) (by decide))
+    [76] [([98, 105, 110], .dir [])] ⟨Or.inl rfl, Or.inl rfl, Or.inl rfl⟩
+  exact ⟨t1, w, by rw [c]; rfl⟩
 
 end CnbVerif.C10
